@@ -144,4 +144,5 @@ def main (args : List String) : IO Unit := do
   | ["cosim", m] => loopCosim m stdin stdout
   | ["comb"] => loopMap CombEval.combLine stdin stdout
   | ["subjm"] => loopMap CombEval.subjLine stdin stdout
+  | ["connm"] => loopMap CombEval.connLine stdin stdout
   | _ => loopRun stdin stdout
